@@ -72,6 +72,18 @@ pub fn strip_ref(e: &syn::Expr) -> &syn::Expr {
     }
 }
 
+/// the text of a value used as `&str`: `&`, `*`, and trailing argument-less `.as_str()` / `.as_ref()` are views of the
+/// same text, not different values
+pub fn text_view(e: &syn::Expr) -> &syn::Expr {
+    let e = strip_ref(e);
+    if let syn::Expr::MethodCall(m) = e {
+        if m.args.is_empty() && m.turbofish.is_none() && (m.method == "as_str" || m.method == "as_ref") {
+            return text_view(&m.receiver);
+        }
+    }
+    e
+}
+
 pub fn int_lit(e: &syn::Expr) -> Option<u64> {
     if let syn::Expr::Lit(l) = strip(e) {
         if let syn::Lit::Int(i) = &l.lit {
@@ -335,4 +347,318 @@ pub fn closure1(e: &syn::Expr) -> Option<(String, &syn::Expr)> {
         }
     }
     None
+}
+
+// ---------------------------------------------------------------------------------------------------------
+// private helper functions called as a sub-expression
+
+/// a function whose body is `(let x = E;)* <expr>`: calling it IS that expression with the parameters replaced by the
+/// arguments (the `let`s are names, as everywhere in these translators)
+pub struct Helper {
+    pub params: Vec<String>,
+    pub has_self: bool,
+    pub body: syn::Expr,
+}
+
+/// `(let x = E;)* <tail>` (also `return <tail>;` as the last statement) → tail with the lets substituted
+pub fn expr_body(b: &syn::Block) -> Option<syn::Expr> {
+    let mut env = Env::default();
+    let n = b.stmts.len();
+    for (k, st) in b.stmts.iter().enumerate() {
+        match st {
+            syn::Stmt::Local(l) if k + 1 < n => match plain_let(l) {
+                Some((nm, false, init)) => env.bind(&nm, init),
+                _ => return None,
+            },
+            syn::Stmt::Expr(e, None) if k + 1 == n => return Some(env.resolve(e)),
+            syn::Stmt::Expr(syn::Expr::Return(r), _) if k + 1 == n => return r.expr.as_ref().map(|e| env.resolve(e)),
+            _ => return None,
+        }
+    }
+    None
+}
+
+fn sig_helper(sig: &syn::Signature, block: &syn::Block) -> Option<Helper> {
+    if sig.asyncness.is_some() {
+        return None;
+    }
+    let has_self = sig.inputs.iter().any(|a| matches!(a, syn::FnArg::Receiver(_)));
+    let params = param_names(sig);
+    if params.len() + has_self as usize != sig.inputs.len() {
+        return None;
+    }
+    Some(Helper { params, has_self, body: expr_body(block)? })
+}
+
+/// the non-`pub` functions of a file (free functions and methods of inherent impls of `ty`, when given) that have the
+/// `Helper` form, except the names in `keep`
+pub fn helpers_of(f: &syn::File, ty: Option<&str>, keep: &[&str]) -> BTreeMap<String, Helper> {
+    let mut m = BTreeMap::new();
+    let private = |v: &syn::Visibility| matches!(v, syn::Visibility::Inherited);
+    for it in &f.items {
+        match it {
+            syn::Item::Fn(func) if private(&func.vis) => {
+                let n = func.sig.ident.to_string();
+                if !keep.contains(&n.as_str()) {
+                    if let Some(h) = sig_helper(&func.sig, &func.block) {
+                        m.insert(n, h);
+                    }
+                }
+            }
+            syn::Item::Impl(im) if im.trait_.is_none() && ty.map(|t| self_type_name(im) == t).unwrap_or(false) => {
+                for ii in &im.items {
+                    if let syn::ImplItem::Fn(func) = ii {
+                        let n = func.sig.ident.to_string();
+                        if private(&func.vis) && !keep.contains(&n.as_str()) {
+                            if let Some(h) = sig_helper(&func.sig, &func.block) {
+                                m.insert(n, h);
+                            }
+                        }
+                    }
+                }
+            }
+            _ => {}
+        }
+    }
+    m
+}
+
+/// replaces `name(args)`, `Self::name(args)`, `<Ty>::name(args)` (helper without receiver) and `self.name(args)`
+/// (helper with receiver) by the helper's body; nested helper calls are followed up to a fixed depth
+pub struct Inliner<'a> {
+    pub helpers: &'a BTreeMap<String, Helper>,
+    pub ty: Option<&'a str>,
+    pub depth: usize,
+}
+
+impl<'a> Inliner<'a> {
+    fn expand(&self, h: &Helper, args: Vec<syn::Expr>) -> Option<syn::Expr> {
+        if h.params.len() != args.len() || self.depth == 0 {
+            return None;
+        }
+        let mut env = Env::default();
+        for (p, a) in h.params.iter().zip(args.into_iter()) {
+            env.map.insert(p.clone(), a);
+        }
+        let mut body = env.resolve(&h.body);
+        Inliner { helpers: self.helpers, ty: self.ty, depth: self.depth - 1 }.visit_expr_mut(&mut body);
+        Some(body)
+    }
+}
+
+impl<'a> VisitMut for Inliner<'a> {
+    fn visit_expr_mut(&mut self, e: &mut syn::Expr) {
+        syn::visit_mut::visit_expr_mut(self, e);
+        let repl = match &*e {
+            syn::Expr::Call(c) => match path_segments(&c.func) {
+                Some(segs) => {
+                    let ok_prefix = match segs.len() {
+                        1 => true,
+                        2 => segs[0] == "Self" || Some(segs[0].as_str()) == self.ty,
+                        _ => false,
+                    };
+                    match self.helpers.get(segs.last().unwrap()) {
+                        Some(h) if ok_prefix && !h.has_self => self.expand(h, c.args.iter().cloned().collect()),
+                        _ => None,
+                    }
+                }
+                None => None,
+            },
+            syn::Expr::MethodCall(m) if ident_of(&m.receiver).as_deref() == Some("self") => match self.helpers.get(&m.method.to_string()) {
+                Some(h) if h.has_self => self.expand(h, m.args.iter().cloned().collect()),
+                _ => None,
+            },
+            _ => None,
+        };
+        if let Some(r) = repl {
+            *e = wrap(r);
+        }
+    }
+}
+
+/// every multi-segment path that occurs in an expression (`A::B`, `A::B::c`), canonical text, in order, generic
+/// arguments dropped, a leading `Self` written as the given type
+pub fn paths_in(e: &syn::Expr, self_ty: &str) -> Vec<String> {
+    struct P<'a>(Vec<String>, &'a str);
+    impl<'ast, 'a> syn::visit::Visit<'ast> for P<'a> {
+        fn visit_expr_path(&mut self, p: &'ast syn::ExprPath) {
+            if p.path.segments.len() >= 2 {
+                let mut segs: Vec<String> = p.path.segments.iter().map(|s| s.ident.to_string()).collect();
+                if segs[0] == "Self" {
+                    segs[0] = self.1.to_string();
+                }
+                self.0.push(segs.join("::"));
+            }
+            syn::visit::visit_expr_path(self, p);
+        }
+    }
+    let mut v = P(Vec::new(), self_ty);
+    syn::visit::Visit::visit_expr(&mut v, e);
+    v.0
+}
+
+// ---------------------------------------------------------------------------------------------------------
+// integer constants, range checks, assertions
+
+/// `const NAME: T = <int literal>;` anywhere in the file (module level, impl level, inside blocks; test modules skipped)
+pub fn const_int(f: &syn::File, name: &str) -> Option<u64> {
+    struct C<'a>(&'a str, Vec<u64>);
+    impl<'ast, 'a> syn::visit::Visit<'ast> for C<'a> {
+        fn visit_item_const(&mut self, c: &'ast syn::ItemConst) {
+            if c.ident == self.0 {
+                if let Some(n) = int_lit(&c.expr) {
+                    self.1.push(n);
+                }
+            }
+        }
+        fn visit_impl_item_const(&mut self, c: &'ast syn::ImplItemConst) {
+            if c.ident == self.0 {
+                if let Some(n) = int_lit(&c.expr) {
+                    self.1.push(n);
+                }
+            }
+        }
+        fn visit_item_mod(&mut self, m: &'ast syn::ItemMod) {
+            if !crate::inventory::is_cfg_test(&m.attrs) {
+                syn::visit::visit_item_mod(self, m);
+            }
+        }
+    }
+    let mut c = C(name, vec![]);
+    syn::visit::Visit::visit_file(&mut c, f);
+    if c.1.len() == 1 {
+        Some(c.1[0])
+    } else {
+        None
+    }
+}
+
+/// an integer literal or a named integer constant of the file
+pub fn int_value(f: &syn::File, e: &syn::Expr) -> Option<u64> {
+    int_lit(e).or_else(|| ident_of(strip_ref(e)).and_then(|id| const_int(f, &id)))
+}
+
+/// `lo <= subject <= hi` (both inclusive), however it is spelt
+pub struct RangeCheck {
+    pub subject: String,
+    pub lo: u64,
+    pub hi: u64,
+}
+
+/// `(A..=B).contains(&S)` | `(A..B).contains(&S)` | `S >= A && S <= B` (either order, `A <= S`, strict forms);
+/// A, B integer literals or named constants of the file; S is given as canonical text (borrows dropped)
+pub fn range_check(f: &syn::File, e: &syn::Expr) -> Option<RangeCheck> {
+    let e = strip(e);
+    if let syn::Expr::MethodCall(m) = e {
+        if m.method == "contains" && m.args.len() == 1 {
+            if let syn::Expr::Range(r) = strip(&m.receiver) {
+                let lo = int_value(f, r.start.as_ref()?)?;
+                let hi = int_value(f, r.end.as_ref()?)?;
+                let hi = match r.limits {
+                    syn::RangeLimits::Closed(_) => hi,
+                    syn::RangeLimits::HalfOpen(_) => hi.checked_sub(1)?,
+                };
+                return Some(RangeCheck { subject: canon(strip_ref(&m.args[0])), lo, hi });
+            }
+        }
+    }
+    if let syn::Expr::Binary(b) = e {
+        if matches!(b.op, syn::BinOp::And(_)) {
+            // each side: S op N or N op S → (subject, is_lower, bound)
+            let side = |x: &syn::Expr| -> Option<(String, bool, u64)> {
+                if let syn::Expr::Binary(c) = strip(x) {
+                    let (subj, n, flipped) = if let Some(n) = int_value(f, &c.right) {
+                        (canon(strip_ref(&c.left)), n, false)
+                    } else if let Some(n) = int_value(f, &c.left) {
+                        (canon(strip_ref(&c.right)), n, true)
+                    } else {
+                        return None;
+                    };
+                    // normalise to `S op n`
+                    let op = match (&c.op, flipped) {
+                        (syn::BinOp::Ge(_), false) | (syn::BinOp::Le(_), true) => ">=",
+                        (syn::BinOp::Gt(_), false) | (syn::BinOp::Lt(_), true) => ">",
+                        (syn::BinOp::Le(_), false) | (syn::BinOp::Ge(_), true) => "<=",
+                        (syn::BinOp::Lt(_), false) | (syn::BinOp::Gt(_), true) => "<",
+                        _ => return None,
+                    };
+                    return Some(match op {
+                        ">=" => (subj, true, n),
+                        ">" => (subj, true, n.checked_add(1)?),
+                        "<=" => (subj, false, n),
+                        _ => (subj, false, n.checked_sub(1)?),
+                    });
+                }
+                None
+            };
+            let (a, b2) = (side(&b.left)?, side(&b.right)?);
+            if a.0 == b2.0 && a.1 != b2.1 {
+                let (lo, hi) = if a.1 { (a.2, b2.2) } else { (b2.2, a.2) };
+                return Some(RangeCheck { subject: a.0, lo, hi });
+            }
+        }
+    }
+    None
+}
+
+/// the conditions of the `assert!`s a function executes at its top level, in order, with `let`s substituted and the
+/// function's parameters written p0, p1, ..; a statement `h(args);` / `Self::h(args);` / `<ty>::h(args);` calling a private
+/// function of the file contributes that function's assertions (its parameters replaced by the arguments).
+/// The optional message arguments of `assert!` are dropped.
+pub fn asserts_of(file: &syn::File, ty: Option<&str>, sig: &syn::Signature, block: &syn::Block) -> Vec<syn::Expr> {
+    fn go(file: &syn::File, ty: Option<&str>, env: &mut Env, block: &syn::Block, depth: usize, out: &mut Vec<syn::Expr>) {
+        for st in &block.stmts {
+            match st {
+                syn::Stmt::Local(l) => {
+                    if let Some((nm, false, init)) = plain_let(l) {
+                        env.bind(&nm, init);
+                    }
+                }
+                syn::Stmt::Macro(m) if m.mac.path.is_ident("assert") => {
+                    let parser = syn::punctuated::Punctuated::<syn::Expr, syn::Token![,]>::parse_terminated;
+                    if let Ok(args) = m.mac.parse_body_with(parser) {
+                        if let Some(c) = args.first() {
+                            out.push(env.resolve(c));
+                        }
+                    }
+                }
+                syn::Stmt::Expr(e, Some(_)) if depth > 0 => {
+                    if let syn::Expr::Call(c) = strip(e) {
+                        if let Some(segs) = path_segments(&c.func) {
+                            let ok_prefix = match segs.len() {
+                                1 => true,
+                                2 => segs[0] == "Self" || Some(segs[0].as_str()) == ty,
+                                _ => false,
+                            };
+                            if !ok_prefix {
+                                continue;
+                            }
+                            let name = segs.last().unwrap().clone();
+                            let callee: Option<(&syn::Signature, &syn::Block, &syn::Visibility)> = free_fn(file, &name)
+                                .map(|f| (&f.sig, &*f.block, &f.vis))
+                                .or_else(|| ty.and_then(|t| impl_fn(file, t, &name)).map(|f| (&f.sig, &f.block, &f.vis)));
+                            if let Some((sig, blk, vis)) = callee {
+                                let params = param_names(sig);
+                                if matches!(vis, syn::Visibility::Inherited) && params.len() == c.args.len() && params.len() == sig.inputs.len() {
+                                    let mut inner = Env::default();
+                                    for (p, a) in params.iter().zip(c.args.iter()) {
+                                        inner.map.insert(p.clone(), env.resolve(strip_ref(a)));
+                                    }
+                                    go(file, ty, &mut inner, blk, depth - 1, out);
+                                }
+                            }
+                        }
+                    }
+                }
+                _ => {}
+            }
+        }
+    }
+    let mut env = Env::default();
+    for (k, p) in param_names(sig).iter().enumerate() {
+        env.rename(p, &format!("p{k}"));
+    }
+    let mut out = Vec::new();
+    go(file, ty, &mut env, block, 3, &mut out);
+    out
 }
